@@ -8,6 +8,8 @@ Protocol (binary in, JSON lines out, one item at a time):
                             16 = also the typed PSD.read under a COUNTING io.BytesIO (every fp.read call, the bytes it
                                 returned, every io.BytesIO(data) the reader creates): what the Lean counting twin
                                 `open.cost` bounds; answer field "count"
+                            32 = also PSDImage.open(<path of a temporary file holding the bytes>): a buffered file object
+                                reserves what read(n) is ASKED for (io.BytesIO allocates what it returns); answer field "path"
                             8 = afterwards run the BATTERY in the same interpreter (state leaking from one open into the
                                 next): headers that must be rejected, good files that must open exactly as they did when
                                 this process was fresh.  The battery is a JSON file named by env C06_BATTERY
@@ -148,6 +150,18 @@ def main():
                 best = ".".join(x for x in (mod, cn, fr.f_code.co_name) if x)
         return best or "?"
 
+    def site_all(tb):
+        """innermost psd_tools frame, utils included: 'module.function'"""
+        best = None
+        for fr, _ln in traceback.walk_tb(tb):
+            fn = fr.f_code.co_filename
+            if "psd_tools" in fn and not fn.startswith("<"):
+                mod = fn.rsplit("/", 1)[-1][:-3]
+                cls = fr.f_locals.get("cls")
+                cn = getattr(cls, "__name__", None)
+                best = ".".join(x for x in (mod, cn if mod != "utils" else None, fr.f_code.co_name) if x)
+        return best or "?"
+
     def outcome(e):
         kind = "exception"
         if isinstance(e, MemoryError):
@@ -155,7 +169,7 @@ def main():
         elif not isinstance(e, Exception):
             kind = "non-exception"
         return {"k": kind, "cls": type(e).__name__, "err": core.err_class(e), "msg": str(e)[:160],
-                "where": where(e.__traceback__)}
+                "where": where(e.__traceback__), "site_all": site_all(e.__traceback__)}
 
     def guarded(fn):
         t = time.perf_counter()
@@ -370,6 +384,23 @@ def main():
         if flags & 16:
             msg["count"], msg["t_count"] = guarded(lambda: counted(data))
             msg["count"].update(counters())
+        if flags & 32:
+            def from_path():
+                import tempfile
+                fd, path = tempfile.mkstemp(suffix=".psd")
+                try:
+                    with os.fdopen(fd, "wb") as f:
+                        f.write(data)
+                    PSDImage.open(path)
+                finally:
+                    try:
+                        os.unlink(path)
+                    except OSError:
+                        pass
+            msg["path"], _t = guarded(from_path)
+            if msg["path"]["k"] == "memory":
+                # the call site that handed the declared length to read(): innermost psd_tools frame, utils included
+                msg["path"]["site"] = msg["path"].get("site_all") or msg["path"]["where"]
         holder = {}
 
         def op():
